@@ -120,6 +120,11 @@ func (g *gen) execOp(sid int, gs []ax.GView, allowShell bool) *ax.Op {
 	if !allowShell {
 		shell = false
 	}
+	if g.full {
+		// a real pty shell is exec'd with the command as an argument: it cannot carry a NUL byte
+		// (the direct level keeps NUL commands for checkCmd)
+		cmd = strings.ReplaceAll(cmd, "\x00", "0")
+	}
 	return &ax.Op{Kind: "EX", Sid: sid, Cmd: cmd, Shell: shell, T: g.clock(gs)}
 }
 
@@ -189,6 +194,9 @@ func direct(seed uint64, pool [][32]byte, class string) {
 			// repeats happen because commands are drawn from a small set and clocks from boundaries
 			g.do(g.execOp(sid, gs, true))
 			g.nt = true
+			if _, _, now := g.w.Sessions[sid].VS.State(); len(now) == 1 && now[0].GrantType == 5 {
+				continue // what is left is a lone Acme grant: the tube switch would ignore the exec tube
+			}
 			if r.Chance(35) { // immediate repeat of the same request: single use
 				last := *g.ops[len(g.ops)-1]
 				if r.Chance(50) {
@@ -252,8 +260,12 @@ func dispatch(seed uint64, pool [][32]byte, class string) {
 			if o.Shell && ev.B {
 				g.dead[sid] = true // the shell's exit closes the session
 			}
-		case x < 75:
+		case x < 72:
 			g.do(&ax.Op{Kind: "PF", Sid: sid, T: g.clock(gs)})
+		case x < 80:
+			// the rest of the tube switch: unknown types are closed, a window-size tube stays open,
+			// a PFTube reaches handlePF
+			g.do(&ax.Op{Kind: "TB", Sid: sid, Ty: byte(hv.Pick(r, []int{3, 6, 7, 8, 0, 200})), Rel: true})
 		default:
 			now := time.Now().Unix()
 			user := g.w.Sessions[sid].User
@@ -311,12 +323,12 @@ func main() {
 		g.nt = true
 		g.emit("regression-start-time")
 	})
-	n := hv.Scale(2200, 30000)
+	n := hv.Scale(1800, 30000)
 	for i := 0; i < n; i++ {
 		seed := r.U64()
 		cases = append(cases, func() { direct(seed, pool, "direct") })
 	}
-	m := hv.Scale(160, 3000)
+	m := hv.Scale(150, 3000)
 	for i := 0; i < m; i++ {
 		seed := r.U64()
 		class := hv.Pick(r, []string{"dispatch-grant-session", "dispatch-grant-session", "dispatch-grant-session", "dispatch-key-session", "dispatch-acme"})
